@@ -4,6 +4,8 @@ Layer A: every ordered list1 in S^2 u S^3 and list2 in S^1 u S^2 over a per-scen
 Layer B: dense probe/target lattices aimed at every cell corner and bounding-box corner of a frame (one call decides
          27 x 49 pairs), the cell layout being re-derived in _sphere.chunk_geometry only to *aim* the points.
 Layer C: maxmatch in {1,2,3} on every ordered list1 in S^2 u S^3, list2 in S^1 u S^2 u S^3 over a small cluster.
+Layer M: match lengths 1 mas, 10 mas, 0.1 arcsec (1 arcsec in thorough): ordered lists (exact duplicates included) over
+         compact sites with separations 0, 0.5, 0.8, 1.3, 2.5 x s at five declinations, both poles and across RA 0/360.
 Oracle: brute-force separations from _sphere.sep_deg (unit-vector atan2 form), never gcirc / spherematch itself.
 """
 import itertools
@@ -23,13 +25,14 @@ TECHNIQUE = ('model checking: bounded-exhaustive small-scope enumeration of poin
 LEVEL_TEXT = ('every ordered pair of short point lists over per-scene site alphabets (equator, RA seam, both poles, mid '
               'latitudes, all sky), plus dense probe lattices on every cell corner of the spatial hash, is executed on the '
               'real code for each match length and chunk size of the menu and compared pair by pair with brute force')
-LEVEL_NOTE = ('holds for the enumerated scenes, scales 1 arcsec..40 deg, chunk factors and list lengths <= 3+3 (29+49 in '
+LEVEL_NOTE = ('holds for the enumerated scenes, scales 1 mas..40 deg, chunk factors and list lengths <= 3+3 (29+49 in '
               'the dense layer); pairs within 1e-9 relative of the match length are do-not-care; configurations over the '
               'cell-count guard are skipped and counted. Trusted: the separation formula in mc/props/_sphere.py, numpy.')
 RULE = ('Layer A: per (scene, match length s, chunk size) all (n^2+n^3)x(n+n^2) (n=7 sites thorough: 392x56; n=6 quick: 252x42) ordered '
         'lists with repetition, list1 of 2-3 and list2 of 1-2 sites placed at multiples of 0.37 s. Layer B: per frame and '
         'cell corner one call with 2 frame points + 5x5 probes vs 7x7 targets. Layer C: maxmatch 1..3 over all ordered '
-        'lists (list1 2-3, list2 1-3 sites) of a cluster. A case is non-trivial when brute force finds at least one pair '
+        'lists (list1 2-3, list2 1-3 sites) of a cluster. Layer M: s in {1 mas, 10 mas, 0.1 arcsec, 1 arcsec} x 7 compact scenes: '
+        'ordered lists with repetition over sites whose separations are 0/0.5/0.8/1.3/2.5 x s. A case is non-trivial when brute force finds at least one pair '
         'closer than the match length; distinct = distinct (coordinates, s, chunk size, maxmatch) tuples.')
 ASSUMPTIONS = ['separations within 1e-9*s + 1e-12 deg of the match length s are do-not-care (neither required nor forbidden)',
                'reported distances are compared with the reference to 1e-9 relative + 1e-12 deg',
@@ -208,6 +211,11 @@ def tasks(tier):
         for s in S.SCALES:
             for cf in (T_CF if T else [None, 1.01, 1.5, 2.0, 4.0]):
                 t.append({'layer': 'B', 'scene': scene, 's': s, 'cf': cf, 'dense': bool(T)})
+    for scene in S.MICRO_SCENES:
+        for s in (S.MICRO_LENGTHS if T else S.MICRO_LENGTHS[:3]):
+            for cf in ([None, 4.0, 10.0] if T else [None, 4.0]):
+                t.append({'layer': 'M', 'scene': scene, 's': s, 'cf': cf, 'n': 6 if T else 5,
+                          'lens1': [2, 3] if T else [2], 'lens2': [1, 2]})
     nC = 5 if T else 4
     for scene in S.SCENES:
         scs = [x for x in S.SCALES if S.scene_sites(scene, x, 8) is not None]
@@ -415,12 +423,44 @@ def _run_B(acc, task):
     acc.sample({'frame': list(fr), 's': s, 'chunk': chunk, 'corners': 'bbox + cell corners', 'probes': '5x5', 'targets': '7x7'})
 
 
+# ------------------------------------------------------------------ layer M: milli-arcsecond match lengths
+def _run_M(acc, task):
+    """Ordered lists (with repetition: exact duplicates) over a compact site set whose separations are 0, 0.5, 0.8,
+    1.3, 2.5 ... times a match length of 1 mas .. 1 arcsec."""
+    scene, s, cf, n = task['scene'], task['s'], task['cf'], task['n']
+    chunk = _chunk(s, cf)
+    sites = S.micro_sites(scene, s, n)
+    ra = np.array([p[0] for p in sites], dtype=float)
+    dec = np.array([p[1] for p in sites], dtype=float)
+    lens1, lens2 = task['lens1'], task['lens2']
+    cells = S.cell_count(ra, dec, S.effective_chunk(s, chunk, True))
+    if cells > GUARD_A:
+        acc.skip('resource-guard: micro %s s=%g chunk=%s -> %d cells per call' % (scene, s, chunk, cells),
+                 sum(n ** a for a in lens1) * sum(n ** a for a in lens2))
+        return
+    full = S.sep_matrix(ra, dec, ra, dec)
+    cfg = ('M', scene, s, cf)
+    for l1 in _lists(n, lens1):
+        i1 = np.array(l1)
+        for l2 in _lists(n, lens2):
+            i2 = np.array(l2)
+            bad, info = check_arrays(ra[i1], dec[i1], ra[i2], dec[i2], s, chunk, 0, sep=full[np.ix_(i1, i2)])
+            acc.case((cfg, l1, l2), info['ntrue'] > 0, info.get('outcome', 'bad:' + bad[0][0] if bad else '?'))
+            if info['nband']:
+                acc.extra['dont_care_pairs_in_band'] += info['nband']
+            for sig, msg in bad:
+                acc.violation(sig, make_case(ra[i1], dec[i1], ra[i2], dec[i2], s, chunk, 0), msg)
+    acc.sample(make_case(ra[[0, 1]], dec[[0, 1]], ra[[0]], dec[[0]], s, chunk, 0))
+
+
 def run_task(task):
     acc = Acc()
     if task['layer'] == 'A':
         _run_lists(acc, task, 0, (2, 3), (1, 2))
     elif task['layer'] == 'C':
         _run_lists(acc, task, task['k'], (2, 3), (1, 2, 3))
+    elif task['layer'] == 'M':
+        _run_M(acc, task)
     else:
         _run_B(acc, task)
     return acc
